@@ -552,6 +552,33 @@ func TestVerifPersist(t *testing.T) {
 						i++
 					}
 				}
+				if vr.name == "smaller" {
+					// smaller MaxSize: what comes back is taken from the most recently used end of each region.
+					// Whatever the per-entry test is, the room it tests against only shrinks while a region loads, so an
+					// unexpired entry that was dropped cannot precede (be more recently used than) a kept entry of the
+					// same region that costs at least as much.
+					resident := func(k int) bool {
+						_, idx := dst.index(k)
+						return dst.shards[idx].hashmap[k] != nil
+					}
+					for _, tp := range []int{2, 3, 4} {
+						var dropped *vsaved
+						for i := range saved {
+							sv := &saved[i]
+							if sv.region != tp || (sv.expireWall != 0 && sv.expireWall < wall) {
+								continue
+							}
+							if !resident(sv.key) {
+								if dropped == nil || sv.pw < dropped.pw {
+									dropped = sv
+								}
+							} else if dropped != nil && sv.pw >= dropped.pw {
+								tr.viol(fmt.Sprintf("C11: load into MaxSize %d (saved %d): region %d kept key %d (cost %d) but dropped the more recently used key %d (cost %d): not taken from the most recently used end", vr.size, size, tp, sv.key, sv.pw, dropped.key, dropped.pw))
+								break
+							}
+						}
+					}
+				}
 				if vr.name != "smaller" {
 					// same MaxSize: every entry that has not expired meanwhile comes back
 					for _, sv := range saved {
